@@ -236,6 +236,7 @@ raft_check!(c30_gen, c30_exec, "C30");
 
 const REAL: &[&str] = &["agdb_server/src/raft.rs (copied verbatim at build time; only `use std::time::Instant` is redirected and read-only accessors are appended)"];
 const STUB: &[&str] = &[
+    "recorded baseline: a frozen copy of raft.rs (engines/raftsim/baseline/raft.rs, the code the known findings were recorded on) runs in a second instance of the simulator, only on plans that touch a recorded deviation, to decide whether that deviation on that history is the recorded defect (counters baseline_consulted / recorded_deviation_absent_from_baseline)",
     "clock: virtual nanosecond counter behind Instant (per-node forward jumps)",
     "network: discrete-event queue (latency, drop, duplicate, delay/reorder, partitions, stalled nodes)",
     "log store: 40-line in-memory mirror of ClusterStorage/ClusterLog (append drops uncommitted entries >= index, commit moves the index only when it marks an entry, logs(from) = newest count-from entries with limit 0 = everything)",
